@@ -79,7 +79,7 @@ impl SchedScenario {
             "engine": "sched",
             "scenario": self.name,
             "image": self.img.name,
-            "cfg": self.cfg.describe(),
+            "cfg": self.cfg.describe(), "cfg_json": self.cfg.to_json(),
             "cfg_name": self.cfg_name,
             "salt": qcow2_rs::verif::ORDER_SALT.load(std::sync::atomic::Ordering::Relaxed),
             "setup": self.setup.iter().map(|o| o.to_json()).collect::<Vec<_>>(),
